@@ -2,6 +2,16 @@ NOTES = ('Bounded-exhaustive model checking of the real implementation; see DESI
          'Known genuine defects are listed in known_findings.json.')
 NOT_APPLICABLE = {}
 CHECKS = {
+ 'C05': dict(engine='E3', design_ref='4/C05',
+    technique='exhaustive enumeration (full product size x stiffness spectrum x geometric-matrix letter x eigenbasis x null-row pattern x requested number x solver switch) of constructed symmetric pairs with exactly known multipliers, plus package (k0,kG0) pairs, through the real compmech.analysis.lb and Panel.lb',
+    text='Every returned pair must satisfy (K + lambda KG) v = 0 to 1e-6 of the matrix scale with zeros on amplitudes without stiffness; for sub-critical destabilising reference loads the values must be ascending and equal the smallest positive exact multipliers d_i/g_i; '
+         'scaling the reference load by s (kept sub-critical) divides the multipliers by s; inputs untouched; Panel.lb agrees with analysis.lb on the same matrices.',
+    note='only finite multipliers are requested (rank-deficient geometric matrices have fewer); ARPACK start vector not owned: residual/known-spectrum oracles'),
+ 'C06': dict(engine='E3', design_ref='4/C06',
+    technique='exhaustive enumeration (full product size x spectrum incl. frequencies closer than 0.05 rad/s x mass letter x eigenbasis x null pattern x requested number x solver x sort x reduced_dof) of constructed pairs with exactly known frequencies, plus panels, an assembly and a stiffened bay, through the real compmech.analysis.freq and Panel.freq',
+    text='Every returned pair must satisfy K v = omega^2 M v, frequencies positive and ascending to 1e-9, modes zero on massless amplitudes, the lowest exact frequencies returned on both paths, '
+         'mass scaling by s scales frequencies by 1/sqrt(s), reduced_dof returns the (v,w)-block spectrum re-expanded with zeros, inputs untouched.',
+    note='requested number restricted to active size - 2 (ARPACK limit)'),
  'C07': dict(engine='E3', design_ref='4/C07',
     technique='exhaustive enumeration (full product structure kind x force-set letters x load factor x restraint pattern; all panel sequences up to a length; bay compositions x force placement) with a complete unit-amplitude basis per case; real calc_fext/static vs virtual work through the package field report and K c = f residuals',
     text='For every case and every unit amplitude vector the product fext.e_k must equal the sum over forces of force times the displacement the package reports at the force location '
